@@ -111,14 +111,14 @@ class Impl:
 
     def tick(self, x):
         d = self.dom
-        if d.datetime_like and d.name != "td":
+        if d.datetime_like and not d.name.startswith("td"):
             x = pd.Timestamp(x)
             o = d.origin
             if o.tzinfo is not None and x.tzinfo is None:
                 x = x.tz_localize("UTC")
             elif o.tzinfo is None and x.tzinfo is not None:
                 x = x.tz_convert("UTC").tz_localize(None)
-            return Fraction(int((x - o).value), 3600 * 10**9)
+            return Fraction(int((x - o).value), d.unit_ns)
         return d.tick(x)
 
     def frame_of(self, s, raw=False):
@@ -366,6 +366,13 @@ class Impl:
             side = "left" if toks[2] in ("left", "L") else "right"
             ys = [float(F(t)) for t in toks[3:]]
             return ("vals", [val(f.ecdf.limit(y, side)) for y in ys])
+        if cmd == "ecdfs":
+            # the ECDF evaluated like any step function: ecdf(y) = P(f <= y)
+            f = self.get(toks[1])
+            ys = [float(F(t)) for t in toks[2:]]
+            if o.get("form") == "list":
+                return ("vals", [val(v) for v in f.ecdf(ys)])
+            return ("vals", [val(f.ecdf(y)) for y in ys])
         if cmd in ("perc", "frac"):
             f = self.get(toks[1])
             ps = [num(F(t)) for t in toks[2:]]
@@ -686,7 +693,7 @@ class Impl:
             return tuple(sa), tuple(ea), (tuple(va) if va is not None else None)
         if route == "ndarray":
             # tz-aware points cannot live in a plain ndarray without losing the zone: use the index class
-            if d.name == "td":
+            if d.name.startswith("td"):
                 mk = pd.TimedeltaIndex
             elif d.datetime_like:
                 mk = pd.DatetimeIndex
